@@ -29,6 +29,8 @@
 (*   "idx_line"    ParseLine stores the line number instead of the index column                    *)
 (*   "falsy_index" Lookup tests `barcodes.get(q)` for truth: a member with cell index 0 is missed     *)
 (*   "getitem_noexpand"  __getitem__ loads the pending file but skips the Hamming expansion             *)
+(*   "eager_expand_gated"  __init__ expands eagerly loaded aliases only when lazyLoad is None: with a     *)
+(*                 partial lazy list (what demux.py passes) eager aliases stay exact-match only        *)
 (*   "stale_ext"   AS CODED for two files mapping to one alias: expand() merges into the old        *)
 (*                 extendedBarcodes, entries that became ties stay assigned (observation, see      *)
 (*                 docs/C03.md; outside the statement's "one whitelist per alias")                 *)
@@ -40,7 +42,8 @@ CONSTANTS A,         \* alphabet size (letters 1..A, A = 'N')
           Ks,        \* set of hammingDistanceExpansion values
           Fmts,      \* subset of {"bc", "bc_idx", "idx_bc"}
           NFiles,    \* set of file counts per alias, subset of {1, 2}
-          Lazy,      \* subset of BOOLEAN
+          Lazy,      \* the lazyLoad argument, subset of {"none", "this", "other", "star"}: None / a tuple naming this alias /
+                     \* a tuple naming only OTHER aliases (demux.py: ("10x_3M-february-2018",)) / '*'
           Touches,   \* how a lazy alias is first touched: subset of {"lookup", "getitem"}
           Variant
 
@@ -65,7 +68,7 @@ LooksLikeBarcode(tok) == tok[1] = "b"
 InjSeqs(S, n) == UNION { { s \in [1 .. m -> S] : \A i, j \in 1 .. m : s[i] = s[j] => i = j } : m \in 0 .. n }
 
 VARIABLES files,    \* the barcode directory: sequence of files mapping to the one alias (glob order)
-          k, lazy,  \* constructor arguments
+          k, lazy,  \* constructor arguments (lazy: the lazyLoad argument as seen from this alias)
           pc, fi, li, idxNotFirst,         \* control state of __init__ / parse_barcode_file
           wl, order,                       \* barcodes[alias] (dict: function + insertion order)
           ext,                             \* extendedBarcodes[alias] : string -> <<index, origin, distance>>
@@ -73,6 +76,7 @@ VARIABLES files,    \* the barcode directory: sequence of files mapping to the o
           space, ci,                       \* hammingSpace of the running expand(), position in `order`
           want, last,                      \* what a running lazy load serves: "no" | "lookup" | "getitem"; last answer <<q, result>>
           touch                            \* scenario: the first access to a lazy alias
+IsLazy == lazy \in {"this", "star"}     \* per alias: `barcodeFileAlias in lazyLoad or lazyLoad == '*'`
 vars == << files, k, lazy, pc, fi, li, idxNotFirst, wl, order, ext, pending, space, ci, want, last, touch >>
 
 (* P-level truth: what the files say *)
@@ -88,11 +92,11 @@ Init == /\ \E n \in NFiles : \E fs \in [1 .. n -> [fmt : Fmts, bcs : InjSeqs(All
               /\ files = fs
         /\ k \in Ks
         /\ lazy \in Lazy
-        /\ (lazy => Len(files) = 1)      \* pending_files holds one file per alias (see docs)
+        /\ (IsLazy => Len(files) = 1)      \* pending_files holds one file per alias (see docs)
         /\ pc = "construct" /\ fi = 1 /\ li = 1 /\ idxNotFirst = FALSE
         /\ wl = <<>> /\ order = <<>> /\ ext = <<>> /\ pending = 0
         /\ space = EmptySpace /\ ci = 1 /\ want = "no" /\ last = None
-        /\ touch \in (IF lazy THEN Touches ELSE {"lookup"})
+        /\ touch \in (IF IsLazy THEN Touches ELSE {"lookup"})
 
 ---------------------------------------------------------------------------------------------------
 (* D-level *)
@@ -101,7 +105,7 @@ Init == /\ \E n \in NFiles : \E fs \in [1 .. n -> [fmt : Fmts, bcs : InjSeqs(All
 Construct ==
     /\ pc = "construct"
     /\ IF fi > Len(files) THEN pc' = "ready" /\ UNCHANGED pending
-       ELSE IF lazy THEN pending' = fi /\ pc' = "ready"
+       ELSE IF IsLazy THEN pending' = fi /\ pc' = "ready"
        ELSE pc' = "detect" /\ UNCHANGED pending
     /\ UNCHANGED << files, k, lazy, fi, li, idxNotFirst, wl, order, ext, space, ci, want, last, touch >>
 
@@ -121,7 +125,8 @@ ParseLine ==
     /\ pc = "lines"
     /\ IF li > Len(files[fi].bcs)
        THEN /\ pc' = IF Variant = "getitem_noexpand" /\ want = "getitem" THEN "resolve"      \* (deviation) nothing to resolve
-                     ELSE IF k > 0 \/ lazy THEN "circle" ELSE "nextfile"   \* eager: `if hammingDistanceExpansion > 0`
+                     ELSE IF IsLazy \/ (k > 0 /\ (Variant # "eager_expand_gated" \/ lazy = "none")) THEN "circle"
+                     ELSE "nextfile"      \* eager: `if hammingDistanceExpansion > 0` - whatever lazyLoad names for OTHER aliases
             /\ ci' = 1 /\ space' = EmptySpace
             /\ UNCHANGED << wl, order, li >>
        ELSE LET t == LineTokens(files[fi], fi, li)
@@ -224,7 +229,7 @@ TypeOK == /\ pc \in {"construct", "detect", "lines", "circle", "resolve", "nextf
 
 ---------------------------------------------------------------------------------------------------
 (* spec -> code: every initial state is a scenario (barcode directory + constructor arguments)  *)
-Scenario == [ k |-> k, lazy |-> lazy, touch |-> touch, A |-> A, L |-> L,
+Scenario == [ k |-> k, lazy |-> IsLazy, lazyarg |-> lazy, touch |-> touch, A |-> A, L |-> L,
               files |-> [ f \in DOMAIN files |-> [ fmt |-> files[f].fmt, bcs |-> files[f].bcs,
                                                    idx |-> [ i \in DOMAIN files[f].bcs |-> IdxOf(files[f].fmt, f, i) ] ] ] ]
 Emit == IF pc = "construct" /\ fi = 1 THEN PrintT("@@SCENARIO " \o ToJson(Scenario)) ELSE TRUE
